@@ -215,6 +215,8 @@ def check(facts, rep, tier, cfg):
                 rep.ok("C05.R5", "source-before-drain/%s" % label, w5, detail)
             else:
                 rep.bad("C05.R5", "source-before-drain/%s" % label, w5, detail if res.get(val) else "no terminating teardown path")
+        for okd, wd_, dd in rules_c08.dispatch_not_cut_short(facts, crate):
+            (rep.ok if okd else rep.bad)("C05.R5", "dispatch-survives-errors", wd_, dd)
     rep.rule("C05.R3", "Finish x Established only drops the inbound sender: no flow-table removal, no closed flag (half-close); EOF sources are the Finish / Reset / teardown cells")
     import rules_c10
     sub = type(rep)(rep.prop, rep.tier, rep.config)
